@@ -78,6 +78,9 @@ type Contract struct {
 	// handed to the callees); its safety and its postconditions are not claimed — used for
 	// functions whose contract is otherwise assumed (`trusted`)
 	AssertsOnly bool
+	// ExitAsserts: `exit-assert @label expr` — evaluated at every return with the local
+	// variables of the body in scope (what the function has written through its local pointers)
+	ExitAsserts []*Clause
 	WireLen    []*Clause // wire-length <= expr: byte length of what the function writes to its Encoder
 	CallAsserts map[string][]*Clause // at <call site> assert <expr> ($arg0.. are the actual arguments)
 	HashOf     *SExpr   // digest expression of the family member (default: result)
@@ -134,7 +137,7 @@ var (
 var clauseKeywords = map[string]bool{
 	"prop": true, "mode": true, "requires": true, "ensures": true, "panics-iff": true, "may-panic": true,
 	"invariant": true, "decreases": true, "unroll": true, "modifies": true, "let": true, "trusted": true,
-	"abstract": true, "inline": true, "split": true, "assert": true, "replay": true, "no-panic": true, "ghost": true, "instance": true, "preimage": true, "hash-family": true, "concrete": true, "wire-length": true, "at": true, "pure": true, "split-returns": true, "asserts-only": true,
+	"abstract": true, "inline": true, "split": true, "assert": true, "replay": true, "no-panic": true, "ghost": true, "instance": true, "preimage": true, "hash-family": true, "concrete": true, "wire-length": true, "at": true, "pure": true, "split-returns": true, "asserts-only": true, "exit-assert": true,
 }
 
 // qualify turns a contract-file function key into the ssa full name.
@@ -396,6 +399,12 @@ func (cs *ContractStore) addClause(c *Contract, kw, rest, where string) error {
 		c.SplitReturns = true
 	case "asserts-only":
 		c.AssertsOnly = true
+	case "exit-assert":
+		e, err := ParseSpec(rest)
+		if err != nil {
+			return fmt.Errorf("%s: %v", where, err)
+		}
+		c.ExitAsserts = append(c.ExitAsserts, &Clause{Kind: "assert", Label: label, Expr: e, Src: rest, Line: where})
 	case "concrete":
 		c.Concrete = append(c.Concrete, strings.Fields(strings.ReplaceAll(rest, ",", " "))...)
 	case "hash-family":
